@@ -121,3 +121,87 @@ fn c15_sign_embeddable_size_contract() {
     println!("VERIF-B-SAMPLE violation classes this run: {:?}; set-up failures: {setup_failed}", counts);
     println!("VERIF-B unit=builder test=c15_sign_embeddable_size_contract evaluations={evals} nontrivial={nontrivial} exhaustive=true domain=formats {:?} x 2 manifest definitions x signer {{plain, with a dynamic assertion}} x 1..=14 exclusion ranges x base offsets {{10, 70000, 5e9}}", formats);
 }
+
+// the same contract over call SEQUENCES on one Builder (the statement quantifies over calls, not over fresh builders):
+// rounds of placeholder -> exclusions -> hash -> sign_embeddable with a different number of exclusions per round, an
+// assertion added or removed between rounds, and placeholder() called again without signing.  Every sign_embeddable
+// result is compared with the placeholder returned LAST.
+#[test]
+fn c15_placeholder_reuse_sequences() {
+    use crate::utils::test::test_context;
+    let mut evals = 0usize;
+    let mut nontrivial = 0usize;
+    let mut counts: std::collections::BTreeMap<String, usize> = std::collections::BTreeMap::new();
+    // per round: (number of exclusion ranges, edit before the round: 0 none / 1 add an assertion / 2 remove the added assertions, call placeholder twice)
+    let ranges = [1u64, 4, 12];
+    let mut rounds_list: Vec<Vec<(u64, u8, bool)>> = Vec::new();
+    for &a in &ranges {
+        for &b in &ranges {
+            for edit in 0..3u8 {
+                for twice in [false, true] {
+                    rounds_list.push(vec![(a, 0, false), (b, edit, twice)]);
+                    rounds_list.push(vec![(a, 1, false), (b, edit, twice), (a, 2, false)]);
+                }
+            }
+        }
+    }
+    for format in ["image/jpeg", "application/c2pa"] {
+        for rounds in &rounds_list {
+            evals += 1;
+            let mut run = || -> Result<Vec<(usize, Result<Vec<u8>>)>> {
+                let mut builder = Builder::from_context(test_context()).with_definition(r#"{"title":"t","assertions":[]}"#)?;
+                builder.set_intent(BuilderIntent::Create(DigitalSourceType::Empty));
+                let mut out = Vec::new();
+                for (k, (n_ranges, edit, twice)) in rounds.iter().enumerate() {
+                    match edit {
+                        1 => {
+                            builder.add_assertion_json(&format!("org.example.note{k}"), &serde_json::json!({"k": "a value that takes some room in the manifest store"}))?;
+                        }
+                        2 => builder.definition.assertions.retain(|a| !a.label.starts_with("org.example.note")),
+                        _ => {}
+                    }
+                    let mut placeholder = builder.placeholder(format)?;
+                    if *twice {
+                        placeholder = builder.placeholder(format)?;
+                    }
+                    let mut ex = Vec::new();
+                    for i in 0..*n_ranges {
+                        ex.push(HashRange::new(10 + i * 1_000, 300));
+                    }
+                    builder.set_data_hash_exclusions(ex)?;
+                    let mut stream = std::io::Cursor::new(vec![7u8; (10 + n_ranges * 1_000 + 400) as usize]);
+                    builder.update_hash_from_stream(format, &mut stream)?;
+                    out.push((placeholder.len(), builder.sign_embeddable(format)));
+                }
+                Ok(out)
+            };
+            match run() {
+                Err(e) => {
+                    let c = counts.entry("setup_failed".to_string()).or_insert(0);
+                    *c += 1;
+                    if *c <= 2 {
+                        println!("VERIF-B-SAMPLE set-up failed for format={format} rounds={rounds:?}: {e}");
+                    }
+                }
+                Ok(results) => {
+                    nontrivial += 1;
+                    for (k, (ph, r)) in results.iter().enumerate() {
+                        if let Ok(v) = r {
+                            if v.len() != *ph {
+                                let key = if v.len() > *ph { "sign_embeddable.longer_than_placeholder" } else { "sign_embeddable.shorter_than_placeholder" };
+                                let c = counts.entry(key.to_string()).or_insert(0);
+                                *c += 1;
+                                if *c <= 3 {
+                                    println!("VERIF-B-VIOLATION key={key} input=format={format} rounds(ranges, edit, placeholder twice)={rounds:?} round={k} placeholder={ph} signed={}", v.len());
+                                }
+                            }
+                        }
+                    }
+                }
+            }
+        }
+    }
+    let setup_failed = counts.remove("setup_failed").unwrap_or(0);
+    println!("VERIF-B-SAMPLE violation classes this run: {:?}; set-up failures: {setup_failed}", counts);
+    println!("VERIF-B unit=builder test=c15_placeholder_reuse_sequences evaluations={evals} nontrivial={nontrivial} exhaustive=true domain=formats {{image/jpeg, application/c2pa}} x sequences of 2-3 placeholder/sign rounds on ONE builder (exclusion counts {{1,4,12}}^2 x assertion added / removed between rounds x placeholder called twice)");
+}
